@@ -2,6 +2,7 @@ package vsched
 
 import (
 	"fmt"
+	"strings"
 	"time"
 )
 
@@ -116,7 +117,9 @@ type ExploreStats struct {
 	Violations   []*Violation // one per distinct key, in order of discovery
 	Elapsed      time.Duration
 	TimedOut     bool
-	FirstTrace   string // decisions of the first (default) schedule, for diagnosis
+	// RaceExecutions counts the schedules on which the race detector reported (exploration stops at 2048)
+	RaceExecutions int
+	FirstTrace     string // decisions of the first (default) schedule, for diagnosis
 }
 
 // Violation is a failing execution with its replayable schedule.
@@ -161,6 +164,7 @@ func Explore(cfg ExploreConfig) *ExploreStats {
 	}
 	states := map[uint64]struct{}{}
 	vkeys := map[string]bool{}
+	vcount := map[string]int{}
 	// bounds 0,1,2 first (the first counterexample then has the fewest
 	// preemptions), then straight to MaxBound
 	var bounds []int
@@ -173,7 +177,7 @@ func Explore(cfg ExploreConfig) *ExploreStats {
 	for _, bound := range bounds {
 		seen := map[pruneKey]int{}
 		cut := false
-		ex := &explorer{cfg: cfg, st: st, bound: bound, seen: seen, states: states, cut: &cut, vkeys: vkeys}
+		ex := &explorer{cfg: cfg, st: st, bound: bound, seen: seen, states: states, cut: &cut, vkeys: vkeys, vcount: vcount}
 		ex.explore(nil, 0, 0)
 		st.States = len(states)
 		if st.TimedOut || ex.fatal {
@@ -201,6 +205,7 @@ type explorer struct {
 	states map[uint64]struct{}
 	cut    *bool
 	vkeys  map[string]bool
+	vcount map[string]int
 	fatal  bool
 }
 
@@ -235,9 +240,29 @@ func (x *explorer) explore(prefix []int, cost0 int, depth int) {
 		x.st.Outcomes[outcome]++
 	}
 	if key != "" {
-		if !x.vkeys[key] && len(x.vkeys) < x.cfg.MaxViolations {
+		// One schedule per class is what a report needs; for classes raised by the race detector a few more are
+		// kept (the 1st, 2nd, 3rd, 4th, 8th, 16th, ... violating schedule of the class): whether the detector still
+		// remembers the earlier of two conflicting accesses depends on how many other accesses to the same 8-byte
+		// word lie between them (four shadow cells per word, evicted pseudo-randomly), so one schedule may report
+		// the race in the exploring process and not in the replaying one. The CLI reports the first candidate that
+		// fails again five times out of five.
+		x.vcount[key]++
+		n := x.vcount[key]
+		first := n == 1 && len(x.vcount) <= x.cfg.MaxViolations
+		more := strings.Contains(key, ":race:") && n <= 1024 && (n <= 4 || n&(n-1) == 0) && x.vkeys[key]
+		if first || more {
 			x.vkeys[key] = true
 			x.st.Violations = append(x.st.Violations, &Violation{Key: key, Schedule: rp.Choices(), Message: viol, Result: res})
+		}
+		if strings.Contains(key, ":race:") {
+			// every race report is appended to the worker's log: the exploration of a scenario stops after 2048
+			// schedules with a report (each of them is a failure of the check already; what is left unexplored is
+			// reported as not exhaustive)
+			x.st.RaceExecutions++
+			if x.st.RaceExecutions >= 2048 {
+				x.st.TimedOut = true
+				return
+			}
 		}
 	}
 	trace := rp.Trace
